@@ -123,6 +123,17 @@ class VTask(Task):
                 )
             entry["step"] = "suspend"
             return TaskResult.suspend()
+        if kind == "suspend_n":
+            # needs script["need"] signals: consumes the delivered one, forgets it, suspends again
+            received = list(ctx.get("received", []))
+            if ctx.get("_signal_name"):
+                received.append(ctx.get("_signal_data"))
+                entry["step"] = "resumed"
+            else:
+                entry["step"] = "suspend"
+            if len(received) >= script["need"]:
+                return TaskResult.success(outputs={"received": received})
+            return TaskResult.suspend(context={"received": received, "_signal_name": None, "_signal_data": None})
         raise RuntimeError(f"harness: unknown script kind {kind}")
 
 
